@@ -1,48 +1,646 @@
-pub mod sync {
-    pub struct Mutex<T>(std::sync::Mutex<T>);
-    pub type MutexGuard<'a,T> = std::sync::MutexGuard<'a,T>;
-    impl<T> Mutex<T>{ pub fn new(t:T)->Self{Self(std::sync::Mutex::new(t))} pub async fn lock(&self)->MutexGuard<'_,T>{ self.0.lock().unwrap() } }
-    impl<T:std::fmt::Debug> std::fmt::Debug for Mutex<T>{ fn fmt(&self,f:&mut std::fmt::Formatter<'_>)->std::fmt::Result{ write!(f,"Mutex") } }
-    impl<T:Default> Default for Mutex<T>{ fn default()->Self{Self::new(T::default())} }
-    pub struct OwnedMutexGuard<T>(pub std::sync::Arc<Mutex<T>>);
-    pub struct RwLock<T>(std::sync::RwLock<T>);
-    impl<T> RwLock<T>{ pub fn new(t:T)->Self{Self(std::sync::RwLock::new(t))}
-        pub async fn read(&self)->std::sync::RwLockReadGuard<'_,T>{self.0.read().unwrap()}
-        pub async fn write(&self)->std::sync::RwLockWriteGuard<'_,T>{self.0.write().unwrap()} }
-}
-pub mod task { pub fn block_in_place<F:FnOnce()->R,R>(f:F)->R{ f() }
-  #[derive(Debug)] pub struct JoinError; impl std::fmt::Display for JoinError{fn fmt(&self,f:&mut std::fmt::Formatter<'_>)->std::fmt::Result{write!(f,"join error")}} impl std::error::Error for JoinError{}
-  pub struct JoinHandle<T>(pub Option<T>);
-  impl<T:Unpin> std::future::Future for JoinHandle<T>{ type Output=Result<T,JoinError>; fn poll(mut self:std::pin::Pin<&mut Self>,_:&mut std::task::Context<'_>)->std::task::Poll<Self::Output>{ std::task::Poll::Ready(Ok(self.0.take().unwrap())) } }
-  pub fn spawn_blocking<F:FnOnce()->R+Send+'static,R:Send+'static>(f:F)->JoinHandle<R>{ JoinHandle(Some(f())) } }
-pub mod time { pub use std::time::Duration; pub async fn sleep(_d:Duration){}
-  pub struct Interval; impl Interval{ pub async fn tick(&mut self){} } pub fn interval(_d:Duration)->Interval{Interval}
-  pub mod error { #[derive(Debug)] pub struct Elapsed; impl std::fmt::Display for Elapsed{fn fmt(&self,f:&mut std::fmt::Formatter<'_>)->std::fmt::Result{write!(f,"elapsed")}} impl std::error::Error for Elapsed{} }
-  pub async fn timeout<F:std::future::Future>(_d:Duration,f:F)->Result<F::Output,error::Elapsed>{ Ok(f.await) } }
-pub mod runtime { pub struct Handle; impl Handle{ pub fn current()->Self{Handle} pub fn block_on<F:std::future::Future>(&self,f:F)->F::Output{ crate::block_on(f) } } }
-pub fn block_on<F:std::future::Future>(f:F)->F::Output{
-    use std::task::*; use std::pin::pin;
-    fn raw()->RawWaker{ fn no(_:*const()){} fn cl(_:*const())->RawWaker{raw()} static V:RawWakerVTable=RawWakerVTable::new(cl,no,no,no); RawWaker::new(std::ptr::null(),&V) }
-    let w=unsafe{Waker::from_raw(raw())}; let mut cx=Context::from_waker(&w); let mut f=pin!(f);
-    loop{ if let Poll::Ready(v)=f.as_mut().poll(&mut cx){return v;} }
-}
-pub mod sync_ext {}
-impl<T> sync::Mutex<T> { pub async fn lock_owned(self: std::sync::Arc<Self>) -> sync::OwnedMutexGuard<T> { sync::OwnedMutexGuard(self) } }
-pub mod sync2 {}
-pub mod __own { }
+//! Stand-in for the part of `tokio` that distributed-walrus and octopii's storage files use:
+//! a deterministic single-threaded executor whose every scheduling decision is taken by a
+//! chooser installed by the harness. Every stand-in await (lock acquisition, spawn_blocking,
+//! sleep, interval tick, socket I/O, and the `yield_point` the octopii stand-in calls around
+//! RPCs and proposals) is a scheduling point. Interval ticks never fire by themselves: the
+//! harness fires them as explicit events.
+#![allow(warnings)]
+use std::cell::{RefCell, UnsafeCell};
+use std::collections::{HashMap, VecDeque};
+use std::future::Future;
+use std::pin::Pin;
+use std::sync::Arc;
+use std::task::{Context, Poll, RawWaker, RawWakerVTable, Waker};
 
-pub mod task2 {}
-pub fn spawn<F>(f: F) -> task::JoinHandle<F::Output> where F: std::future::Future + 'static, F::Output: 'static { task::JoinHandle(Some(block_on(f))) }
-pub mod net {
-    use std::net::SocketAddr; use std::io;
-    pub async fn lookup_host<T: ToString>(host: T) -> io::Result<std::vec::IntoIter<SocketAddr>> { host.to_string().parse::<SocketAddr>().map(|a| vec![a].into_iter()).map_err(|e| io::Error::new(io::ErrorKind::Other, e.to_string())) }
-    pub struct TcpListener; pub struct TcpStream { pub inp: std::collections::VecDeque<u8>, pub out: Vec<u8> }
-    impl TcpListener { pub async fn bind(_a: &str) -> io::Result<Self> { Ok(TcpListener) } pub async fn accept(&self) -> io::Result<(TcpStream, SocketAddr)> { Err(io::Error::new(io::ErrorKind::Other, "no more")) } }
+// --------------------------------------------------------------------------- executor
+
+#[derive(Clone, Debug, PartialEq)]
+pub enum TaskState {
+    Ready,
+    /// blocked on a lock / join / socket / tick; the string says on what
+    Blocked(String),
+    Done,
 }
+
+struct Task {
+    fut: Option<Pin<Box<dyn Future<Output = ()>>>>,
+    state: TaskState,
+    name: String,
+}
+
+pub struct Rt {
+    tasks: Vec<Task>,
+    current: Option<usize>,
+    last_point: String,
+    /// interval id -> number of fired-but-unconsumed ticks
+    ticks: HashMap<usize, usize>,
+    next_interval: usize,
+    interval_owner: HashMap<usize, usize>,
+}
+
+thread_local! {
+    static RT: RefCell<Option<Rt>> = const { RefCell::new(None) };
+}
+
+fn noop_waker() -> Waker {
+    fn raw() -> RawWaker {
+        fn no(_: *const ()) {}
+        fn cl(_: *const ()) -> RawWaker {
+            raw()
+        }
+        static V: RawWakerVTable = RawWakerVTable::new(cl, no, no, no);
+        RawWaker::new(std::ptr::null(), &V)
+    }
+    unsafe { Waker::from_raw(raw()) }
+}
+
+fn with_rt<R>(f: impl FnOnce(&mut Rt) -> R) -> R {
+    RT.with(|r| f(r.borrow_mut().as_mut().expect("tokio stand-in: no runtime")))
+}
+
+pub mod sim {
+    //! Harness-facing control surface.
+    use super::*;
+
+    pub fn reset() {
+        RT.with(|r| {
+            *r.borrow_mut() = Some(Rt { tasks: vec![], current: None, last_point: String::new(), ticks: HashMap::new(), next_interval: 0, interval_owner: HashMap::new() })
+        });
+    }
+    pub fn shutdown() {
+        // drop all tasks (and what they own)
+        let tasks = RT.with(|r| r.borrow_mut().take());
+        drop(tasks);
+    }
+    pub fn spawn_named<F: Future<Output = ()> + 'static>(name: &str, f: F) -> usize {
+        with_rt(|rt| {
+            rt.tasks.push(Task { fut: Some(Box::pin(f)), state: TaskState::Ready, name: name.to_string() });
+            rt.tasks.len() - 1
+        })
+    }
+    pub fn ready_tasks() -> Vec<usize> {
+        with_rt(|rt| rt.tasks.iter().enumerate().filter(|(_, t)| t.state == TaskState::Ready).map(|(i, _)| i).collect())
+    }
+    pub fn task_state(i: usize) -> TaskState {
+        with_rt(|rt| rt.tasks[i].state.clone())
+    }
+    pub fn task_name(i: usize) -> String {
+        with_rt(|rt| rt.tasks[i].name.clone())
+    }
+    pub fn task_count() -> usize {
+        with_rt(|rt| rt.tasks.len())
+    }
+    pub fn last_point() -> String {
+        with_rt(|rt| rt.last_point.clone())
+    }
+    /// intervals with a task waiting for a tick: (interval id, owner task)
+    pub fn waiting_intervals() -> Vec<(usize, usize)> {
+        with_rt(|rt| {
+            let mut v: Vec<(usize, usize)> = rt
+                .interval_owner
+                .iter()
+                .filter(|(_, t)| matches!(&rt.tasks[**t].state, TaskState::Blocked(s) if s.starts_with("tick")))
+                .map(|(i, t)| (*i, *t))
+                .collect();
+            v.sort();
+            v
+        })
+    }
+    pub fn fire_tick(interval: usize) {
+        with_rt(|rt| {
+            *rt.ticks.entry(interval).or_insert(0) += 1;
+            if let Some(t) = rt.interval_owner.get(&interval).copied() {
+                if matches!(&rt.tasks[t].state, TaskState::Blocked(s) if s.starts_with("tick")) {
+                    rt.tasks[t].state = TaskState::Ready;
+                }
+            }
+        });
+    }
+    /// Poll task `i` once (it runs until its next scheduling point).
+    pub fn step(i: usize) {
+        let fut = with_rt(|rt| {
+            rt.current = Some(i);
+            rt.tasks[i].fut.take()
+        });
+        let Some(mut fut) = fut else { return };
+        let w = noop_waker();
+        let mut cx = Context::from_waker(&w);
+        let r = fut.as_mut().poll(&mut cx);
+        with_rt(|rt| {
+            rt.current = None;
+            match r {
+                Poll::Ready(()) => {
+                    rt.tasks[i].state = TaskState::Done;
+                }
+                Poll::Pending => {
+                    rt.tasks[i].fut = Some(fut);
+                }
+            }
+        });
+        // wake joiners
+        if matches!(r, Poll::Ready(())) {
+            wake_blocked(&format!("join:{}", i));
+        }
+    }
+    pub fn current() -> Option<usize> {
+        with_rt(|rt| rt.current)
+    }
+    pub fn wake_blocked(reason: &str) {
+        with_rt(|rt| {
+            for t in rt.tasks.iter_mut() {
+                if matches!(&t.state, TaskState::Blocked(s) if s == reason) {
+                    t.state = TaskState::Ready;
+                }
+            }
+        });
+    }
+    /// Used by stand-in primitives: mark the running task blocked on `reason`.
+    pub fn block_current(reason: &str) {
+        with_rt(|rt| {
+            if let Some(c) = rt.current {
+                rt.tasks[c].state = TaskState::Blocked(reason.to_string());
+                rt.last_point = reason.to_string();
+            }
+        });
+    }
+    pub fn note_point(name: &str) {
+        with_rt(|rt| rt.last_point = name.to_string());
+    }
+}
+
+/// A scheduling point: returns Pending once (the task stays ready), then Ready.
+pub struct YieldPoint {
+    done: bool,
+    name: &'static str,
+}
+impl Future for YieldPoint {
+    type Output = ();
+    fn poll(mut self: Pin<&mut Self>, _cx: &mut Context<'_>) -> Poll<()> {
+        if self.done || !RT.with(|r| r.borrow().is_some()) {
+            Poll::Ready(())
+        } else {
+            self.done = true;
+            sim::note_point(self.name);
+            Poll::Pending
+        }
+    }
+}
+pub fn yield_point(name: &'static str) -> YieldPoint {
+    YieldPoint { done: false, name }
+}
+
+/// Simple synchronous driver for code that needs no scheduling (ocmc): polls to completion.
+pub fn block_on<F: Future>(f: F) -> F::Output {
+    let w = noop_waker();
+    let mut cx = Context::from_waker(&w);
+    let mut f = std::pin::pin!(f);
+    loop {
+        if let Poll::Ready(v) = f.as_mut().poll(&mut cx) {
+            return v;
+        }
+    }
+}
+
+pub fn spawn<F>(f: F) -> task::JoinHandle<F::Output>
+where
+    F: Future + 'static,
+    F::Output: 'static,
+{
+    let slot: Arc<std::sync::Mutex<Option<F::Output>>> = Arc::new(std::sync::Mutex::new(None));
+    let s2 = slot.clone();
+    let has_rt = RT.with(|r| r.borrow().is_some());
+    if !has_rt {
+        // no simulated runtime (ocmc): run inline
+        *slot.lock().unwrap() = Some(block_on(f));
+        return task::JoinHandle { slot, id: usize::MAX };
+    }
+    let id = sim::spawn_named("spawned", async move {
+        let v = f.await;
+        *s2.lock().unwrap() = Some(v);
+    });
+    task::JoinHandle { slot, id }
+}
+
+// ------------------------------------------------------------------------------- sync
+
+pub mod sync {
+    use super::*;
+
+    struct LockState {
+        writer: bool,
+        readers: usize,
+    }
+
+    pub struct Mutex<T> {
+        st: std::sync::Mutex<LockState>,
+        val: UnsafeCell<T>,
+        id: usize,
+    }
+    unsafe impl<T: Send> Send for Mutex<T> {}
+    unsafe impl<T: Send> Sync for Mutex<T> {}
+    static NEXT_LOCK: std::sync::atomic::AtomicUsize = std::sync::atomic::AtomicUsize::new(1);
+
+    impl<T> Mutex<T> {
+        pub fn new(t: T) -> Self {
+            Self { st: std::sync::Mutex::new(LockState { writer: false, readers: 0 }), val: UnsafeCell::new(t), id: NEXT_LOCK.fetch_add(1, std::sync::atomic::Ordering::SeqCst) }
+        }
+        fn try_acquire(&self) -> bool {
+            let mut s = self.st.lock().unwrap();
+            if s.writer {
+                false
+            } else {
+                s.writer = true;
+                true
+            }
+        }
+        fn release(&self) {
+            self.st.lock().unwrap().writer = false;
+            if RT.with(|r| r.borrow().is_some()) {
+                sim::wake_blocked(&format!("lock:{}", self.id));
+            }
+        }
+        pub async fn lock(&self) -> MutexGuard<'_, T> {
+            yield_point("mutex.lock").await;
+            loop {
+                if self.try_acquire() {
+                    return MutexGuard { m: self };
+                }
+                Blocked::on(format!("lock:{}", self.id)).await;
+            }
+        }
+        pub async fn lock_owned(self: Arc<Self>) -> OwnedMutexGuard<T> {
+            yield_point("mutex.lock_owned").await;
+            loop {
+                if self.try_acquire() {
+                    return OwnedMutexGuard { m: self };
+                }
+                Blocked::on(format!("lock:{}", self.id)).await;
+            }
+        }
+    }
+    impl<T: std::fmt::Debug> std::fmt::Debug for Mutex<T> {
+        fn fmt(&self, f: &mut std::fmt::Formatter<'_>) -> std::fmt::Result {
+            write!(f, "Mutex")
+        }
+    }
+    impl<T: Default> Default for Mutex<T> {
+        fn default() -> Self {
+            Self::new(T::default())
+        }
+    }
+    pub struct MutexGuard<'a, T> {
+        m: &'a Mutex<T>,
+    }
+    impl<'a, T> std::ops::Deref for MutexGuard<'a, T> {
+        type Target = T;
+        fn deref(&self) -> &T {
+            unsafe { &*self.m.val.get() }
+        }
+    }
+    impl<'a, T> std::ops::DerefMut for MutexGuard<'a, T> {
+        fn deref_mut(&mut self) -> &mut T {
+            unsafe { &mut *self.m.val.get() }
+        }
+    }
+    impl<'a, T> Drop for MutexGuard<'a, T> {
+        fn drop(&mut self) {
+            self.m.release();
+        }
+    }
+    pub struct OwnedMutexGuard<T> {
+        m: Arc<Mutex<T>>,
+    }
+    impl<T> std::ops::Deref for OwnedMutexGuard<T> {
+        type Target = T;
+        fn deref(&self) -> &T {
+            unsafe { &*self.m.val.get() }
+        }
+    }
+    impl<T> std::ops::DerefMut for OwnedMutexGuard<T> {
+        fn deref_mut(&mut self) -> &mut T {
+            unsafe { &mut *self.m.val.get() }
+        }
+    }
+    impl<T> Drop for OwnedMutexGuard<T> {
+        fn drop(&mut self) {
+            self.m.release();
+        }
+    }
+
+    pub struct RwLock<T> {
+        st: std::sync::Mutex<LockState>,
+        val: UnsafeCell<T>,
+        id: usize,
+    }
+    unsafe impl<T: Send> Send for RwLock<T> {}
+    unsafe impl<T: Send + Sync> Sync for RwLock<T> {}
+    impl<T> RwLock<T> {
+        pub fn new(t: T) -> Self {
+            Self { st: std::sync::Mutex::new(LockState { writer: false, readers: 0 }), val: UnsafeCell::new(t), id: NEXT_LOCK.fetch_add(1, std::sync::atomic::Ordering::SeqCst) }
+        }
+        pub async fn read(&self) -> RwLockReadGuard<'_, T> {
+            yield_point("rwlock.read").await;
+            loop {
+                {
+                    let mut s = self.st.lock().unwrap();
+                    if !s.writer {
+                        s.readers += 1;
+                        return RwLockReadGuard { l: self };
+                    }
+                }
+                Blocked::on(format!("lock:{}", self.id)).await;
+            }
+        }
+        pub async fn write(&self) -> RwLockWriteGuard<'_, T> {
+            yield_point("rwlock.write").await;
+            loop {
+                {
+                    let mut s = self.st.lock().unwrap();
+                    if !s.writer && s.readers == 0 {
+                        s.writer = true;
+                        return RwLockWriteGuard { l: self };
+                    }
+                }
+                Blocked::on(format!("lock:{}", self.id)).await;
+            }
+        }
+        fn wake(&self) {
+            if RT.with(|r| r.borrow().is_some()) {
+                sim::wake_blocked(&format!("lock:{}", self.id));
+            }
+        }
+    }
+    impl<T: Default> Default for RwLock<T> {
+        fn default() -> Self {
+            Self::new(T::default())
+        }
+    }
+    pub struct RwLockReadGuard<'a, T> {
+        l: &'a RwLock<T>,
+    }
+    impl<'a, T: std::fmt::Debug> std::fmt::Debug for RwLockReadGuard<'a, T> {
+        fn fmt(&self, f: &mut std::fmt::Formatter<'_>) -> std::fmt::Result {
+            std::fmt::Debug::fmt(&**self, f)
+        }
+    }
+    impl<'a, T> std::ops::Deref for RwLockReadGuard<'a, T> {
+        type Target = T;
+        fn deref(&self) -> &T {
+            unsafe { &*self.l.val.get() }
+        }
+    }
+    impl<'a, T> Drop for RwLockReadGuard<'a, T> {
+        fn drop(&mut self) {
+            self.l.st.lock().unwrap().readers -= 1;
+            self.l.wake();
+        }
+    }
+    pub struct RwLockWriteGuard<'a, T> {
+        l: &'a RwLock<T>,
+    }
+    impl<'a, T> std::ops::Deref for RwLockWriteGuard<'a, T> {
+        type Target = T;
+        fn deref(&self) -> &T {
+            unsafe { &*self.l.val.get() }
+        }
+    }
+    impl<'a, T> std::ops::DerefMut for RwLockWriteGuard<'a, T> {
+        fn deref_mut(&mut self) -> &mut T {
+            unsafe { &mut *self.l.val.get() }
+        }
+    }
+    impl<'a, T> Drop for RwLockWriteGuard<'a, T> {
+        fn drop(&mut self) {
+            self.l.st.lock().unwrap().writer = false;
+            self.l.wake();
+        }
+    }
+}
+
+/// Future that blocks the running task on `reason` until `sim::wake_blocked(reason)`.
+pub struct Blocked {
+    reason: String,
+    armed: bool,
+}
+impl Blocked {
+    pub fn on(reason: String) -> Self {
+        Blocked { reason, armed: false }
+    }
+}
+impl Future for Blocked {
+    type Output = ();
+    fn poll(mut self: Pin<&mut Self>, _cx: &mut Context<'_>) -> Poll<()> {
+        if self.armed {
+            return Poll::Ready(());
+        }
+        self.armed = true;
+        if RT.with(|r| r.borrow().is_some()) {
+            sim::block_current(&self.reason);
+            Poll::Pending
+        } else {
+            panic!("tokio stand-in: would block on {} outside the simulated runtime", self.reason);
+        }
+    }
+}
+
+// ------------------------------------------------------------------------------- task
+
+pub mod task {
+    use super::*;
+    pub fn block_in_place<F: FnOnce() -> R, R>(f: F) -> R {
+        f()
+    }
+    #[derive(Debug)]
+    pub struct JoinError;
+    impl std::fmt::Display for JoinError {
+        fn fmt(&self, f: &mut std::fmt::Formatter<'_>) -> std::fmt::Result {
+            write!(f, "join error")
+        }
+    }
+    impl std::error::Error for JoinError {}
+    pub struct JoinHandle<T> {
+        pub(crate) slot: Arc<std::sync::Mutex<Option<T>>>,
+        pub(crate) id: usize,
+    }
+    impl<T> Future for JoinHandle<T> {
+        type Output = Result<T, JoinError>;
+        fn poll(self: Pin<&mut Self>, _cx: &mut Context<'_>) -> Poll<Self::Output> {
+            if let Some(v) = self.slot.lock().unwrap().take() {
+                return Poll::Ready(Ok(v));
+            }
+            sim::block_current(&format!("join:{}", self.id));
+            Poll::Pending
+        }
+    }
+    /// The closure (an engine call) runs atomically, after one scheduling point.
+    pub fn spawn_blocking<F: FnOnce() -> R + 'static, R: 'static>(f: F) -> BlockingCall<F, R> {
+        BlockingCall { f: Some(f), yielded: false, _r: std::marker::PhantomData }
+    }
+    pub struct BlockingCall<F, R> {
+        f: Option<F>,
+        yielded: bool,
+        _r: std::marker::PhantomData<R>,
+    }
+    impl<F, R> Unpin for BlockingCall<F, R> {}
+    impl<F: FnOnce() -> R, R> Future for BlockingCall<F, R> {
+        type Output = Result<R, JoinError>;
+        fn poll(mut self: Pin<&mut Self>, _cx: &mut Context<'_>) -> Poll<Self::Output> {
+            let in_rt = RT.with(|r| r.borrow().is_some());
+            if in_rt && !self.yielded {
+                self.yielded = true;
+                sim::note_point("spawn_blocking");
+                return Poll::Pending;
+            }
+            let f = self.f.take().expect("polled after completion");
+            Poll::Ready(Ok(f()))
+        }
+    }
+}
+
+// ------------------------------------------------------------------------------- time
+
+pub mod time {
+    use super::*;
+    pub use std::time::Duration;
+    pub async fn sleep(_d: Duration) {
+        if RT.with(|r| r.borrow().is_some()) {
+            yield_point("sleep").await;
+        }
+    }
+    pub struct Interval {
+        id: usize,
+        first: bool,
+    }
+    impl Interval {
+        /// Completes only when the harness fires a tick for this interval.
+        pub async fn tick(&mut self) {
+            let id = self.id;
+            loop {
+                let got = with_rt(|rt| {
+                    let c = rt.current.unwrap_or(0);
+                    rt.interval_owner.insert(id, c);
+                    let n = rt.ticks.entry(id).or_insert(0);
+                    if *n > 0 {
+                        *n -= 1;
+                        true
+                    } else {
+                        false
+                    }
+                });
+                if got {
+                    return;
+                }
+                Blocked::on(format!("tick:{}", id)).await;
+            }
+        }
+    }
+    pub fn interval(_d: Duration) -> Interval {
+        let id = with_rt(|rt| {
+            rt.next_interval += 1;
+            rt.next_interval
+        });
+        Interval { id, first: true }
+    }
+    pub mod error {
+        #[derive(Debug)]
+        pub struct Elapsed;
+        impl std::fmt::Display for Elapsed {
+            fn fmt(&self, f: &mut std::fmt::Formatter<'_>) -> std::fmt::Result {
+                write!(f, "elapsed")
+            }
+        }
+        impl std::error::Error for Elapsed {}
+    }
+    pub async fn timeout<F: Future>(_d: Duration, f: F) -> Result<F::Output, error::Elapsed> {
+        Ok(f.await)
+    }
+}
+
+pub mod runtime {
+    pub struct Handle;
+    impl Handle {
+        pub fn current() -> Self {
+            Handle
+        }
+        pub fn block_on<F: std::future::Future>(&self, f: F) -> F::Output {
+            crate::block_on(f)
+        }
+    }
+}
+
+// -------------------------------------------------------------------------------- net
+
+pub mod net {
+    use super::*;
+    use std::io;
+    use std::net::SocketAddr;
+
+    pub async fn lookup_host<T: ToString>(host: T) -> io::Result<std::vec::IntoIter<SocketAddr>> {
+        host.to_string().parse::<SocketAddr>().map(|a| vec![a].into_iter()).map_err(|e| io::Error::new(io::ErrorKind::Other, e.to_string()))
+    }
+
+    thread_local! {
+        /// bind address -> scripted incoming connections
+        pub static INCOMING: RefCell<HashMap<String, VecDeque<TcpStream>>> = RefCell::new(HashMap::new());
+    }
+    pub fn script_connection(bind: &str, input: Vec<u8>) -> Arc<std::sync::Mutex<Vec<u8>>> {
+        let out = Arc::new(std::sync::Mutex::new(Vec::new()));
+        let s = TcpStream { inp: input.into(), out: out.clone() };
+        INCOMING.with(|m| m.borrow_mut().entry(bind.to_string()).or_default().push_back(s));
+        out
+    }
+    pub struct TcpListener {
+        addr: String,
+    }
+    pub struct TcpStream {
+        pub inp: VecDeque<u8>,
+        pub out: Arc<std::sync::Mutex<Vec<u8>>>,
+    }
+    impl TcpListener {
+        pub async fn bind(a: &str) -> io::Result<Self> {
+            Ok(TcpListener { addr: a.to_string() })
+        }
+        pub async fn accept(&self) -> io::Result<(TcpStream, SocketAddr)> {
+            yield_point("accept").await;
+            loop {
+                let s = INCOMING.with(|m| m.borrow_mut().get_mut(&self.addr).and_then(|q| q.pop_front()));
+                if let Some(s) = s {
+                    return Ok((s, "127.0.0.1:1".parse().unwrap()));
+                }
+                Blocked::on(format!("accept:{}", self.addr)).await;
+            }
+        }
+    }
+}
+
 pub mod io {
     use std::io;
-    pub trait AsyncReadExt { async fn read_exact(&mut self, buf: &mut [u8]) -> io::Result<usize>; }
-    pub trait AsyncWriteExt { async fn write_all(&mut self, buf: &[u8]) -> io::Result<()>; }
-    impl AsyncReadExt for crate::net::TcpStream { async fn read_exact(&mut self, buf: &mut [u8]) -> io::Result<usize> { if self.inp.len() < buf.len() { return Err(io::Error::new(io::ErrorKind::UnexpectedEof, "eof")); } for b in buf.iter_mut() { *b = self.inp.pop_front().unwrap(); } Ok(buf.len()) } }
-    impl AsyncWriteExt for crate::net::TcpStream { async fn write_all(&mut self, buf: &[u8]) -> io::Result<()> { self.out.extend_from_slice(buf); Ok(()) } }
+    pub trait AsyncReadExt {
+        async fn read_exact(&mut self, buf: &mut [u8]) -> io::Result<usize>;
+    }
+    pub trait AsyncWriteExt {
+        async fn write_all(&mut self, buf: &[u8]) -> io::Result<()>;
+    }
+    impl AsyncReadExt for crate::net::TcpStream {
+        async fn read_exact(&mut self, buf: &mut [u8]) -> io::Result<usize> {
+            crate::yield_point("socket.read").await;
+            if self.inp.len() < buf.len() {
+                // the scripted peer has closed: whatever is left is discarded, like a
+                // connection closed in the middle of a frame
+                self.inp.clear();
+                return Err(io::Error::new(io::ErrorKind::UnexpectedEof, "eof"));
+            }
+            for b in buf.iter_mut() {
+                *b = self.inp.pop_front().unwrap();
+            }
+            Ok(buf.len())
+        }
+    }
+    impl AsyncWriteExt for crate::net::TcpStream {
+        async fn write_all(&mut self, buf: &[u8]) -> io::Result<()> {
+            crate::yield_point("socket.write").await;
+            self.out.lock().unwrap().extend_from_slice(buf);
+            Ok(())
+        }
+    }
 }
